@@ -33,9 +33,11 @@ class Report:
         self.nontrivial = set()
         self.functions = set()
         self.config = None
+        self.okkeys = set()
 
     def ok(self, rule, key, detail=None, nontrivial=True, fn=None):
         self.counts[rule] = self.counts.get(rule, 0) + 1
+        self.okkeys.add((rule, key))
         if nontrivial:
             self.nontrivial.add((rule, key))
         if fn is not None:
